@@ -48,6 +48,10 @@ def gen_ops(rnd, L, height):
         k = rnd.choice("PPPPPFW")
         if k == "P":
             col = np.array([[rnd.choice([rnd.gauss(0, 3), float(rnd.randint(-5, 5)), 1e300, -0.0])] for _ in range(height)])
+            if rnd.random() < 0.12:
+                # a column of whole numbers handed over as an integer array (or of float32 values) is the same column
+                col = np.array([[float(rnd.randint(-5, 5))] for _ in range(height)])
+                col = col.astype(rnd.choice([np.int64, np.int32, np.float32]))
             ops.append(("P", col))
         else:
             ops.append((k,))
@@ -61,6 +65,7 @@ def run_store(ops, clockname, ext, tmp, tag):
     fn = os.path.join(tmp, f"s{tag}.{ext}")
     clock = ScriptedClock(clock_fn(clockname))
     idx = []
+    RUN_ERROR.clear()
     with patched_clock(clock, samplers=False), quiet():
         s = Samples(fn, mode="w", overwrite=True)
         k = 0
@@ -71,7 +76,7 @@ def run_store(ops, clockname, ext, tmp, tag):
             if op[0] == "P":
                 if reuse:
                     if work is None:
-                        work = np.empty_like(op[1])
+                        work = np.empty(op[1].shape)
                     work[:] = op[1]
                     s.append(work)
                 else:
@@ -84,6 +89,18 @@ def run_store(ops, clockname, ext, tmp, tag):
             idx.append(int(s.read_attribute("write_index")))
         s.close()
     return fn, idx, clock.k
+
+
+RUN_ERROR = {}
+
+
+def run_store_safe(ops, clockname, ext, tmp, tag):
+    """run_store, with an exception raised by the store recorded as an observation"""
+    try:
+        return run_store(ops, clockname, ext, tmp, tag)
+    except Exception as e:
+        RUN_ERROR["error"] = repr(e)
+        return os.path.join(tmp, f"s{tag}.{ext}"), [], -1
 
 
 def read_back(fn, b):
@@ -100,6 +117,7 @@ def read_back(fn, b):
         out["numpy"] = arr
         out["getitem_all"] = np.array(s[:, :], dtype=float)
         out["samples"] = np.array(s.samples, dtype=float)
+        out["misfits_shape"] = tuple(np.shape(s.misfits))
         out["misfits"] = np.array(s.misfits, dtype=float).ravel()
         out["write_index"] = int(s.read_attribute("write_index"))
         n = arr.shape[1]
@@ -136,15 +154,23 @@ def run(tier, seed):
                         cases.append((ops, "fast" if L % 2 else "slow", ext, 2))
         reqs, metas = [], []
         for ci, (ops, clockname, ext, h) in enumerate(cases):
-            fn, idx, ticks = run_store(ops, clockname, ext, tmp, ci)
+            fn, idx, ticks = run_store_safe(ops, clockname, ext, tmp, ci)
+            if RUN_ERROR:
+                stim0 = {"ops": [o[0] if o[0] != "P" else ["P", str(o[1].dtype)] + o[1].ravel().tolist() for o in ops], "clock": clockname, "backend": ext}
+                st.case(stim0, nontrivial=False)
+                st.disagree(stim0, "every operation succeeds", RUN_ERROR["error"], "the store raised")
+                findings.append(Finding("C10", f"{ext} store raised {RUN_ERROR['error'][:160]} during a legal sequence of appends / flushes / attribute writes",
+                                        {"kind": "store-raised", "backend": ext}, {"oracle": "store", "stimulus": stim0, "error": RUN_ERROR["error"]}))
+                continue
             clk = [clock_fn(clockname)(k) for k in range(2 * len(ops) + 4)]
-            line = f"c10.store {vhex(clk)} {len(ops) + 1} " + " ".join(("P " + vhex(o[1])) if o[0] == "P" else o[0] for o in ops) + " C"
+            line = f"c10.store {vhex(clk)} {len(ops) + 1} " + " ".join(("P " + vhex(np.asarray(o[1], dtype=float))) if o[0] == "P" else o[0] for o in ops) + " C"
             reqs.append(line)
             metas.append((ops, clockname, ext, fn, idx, ticks))
         answers = lean_batch(reqs)
         for (ops, clockname, ext, fn, idx, ticks), ans in zip(metas, answers):
-            stim = {"ops": [o[0] if o[0] != "P" else ["P"] + o[1].ravel().tolist() for o in ops], "clock": clockname, "backend": ext}
-            appended = [o[1].ravel() for o in ops if o[0] == "P"]
+            stim = {"ops": [o[0] if o[0] != "P" else ["P"] + o[1].ravel().tolist() for o in ops], "clock": clockname, "backend": ext,
+                    "column_dtypes": sorted({str(o[1].dtype) for o in ops if o[0] == "P"})}
+            appended = [np.asarray(o[1], dtype=float).ravel() for o in ops if o[0] == "P"]
             parts = ans[3:].split(" | ")
             midx = [int(t) for t in parts[0].split()] if parts[0].strip() else []
             r = Reader(parts[1])
@@ -202,6 +228,10 @@ def run(tier, seed):
                 if rb["write_index"] != n:
                     bad = (b, f"write_index = {n}", rb["write_index"])
                     break
+                if rb["misfits_shape"] != (n - b, 1):
+                    # the documented layout of the HDF5 back end; "for both the HDF5 and the NPY back end" the accessors must agree
+                    bad = (b, f"misfits of shape {(n - b, 1)} (one column, as the HDF5 back end returns)", f"shape {rb['misfits_shape']}")
+                    break
             if bad:
                 st.disagree(stim, bad[1], bad[2], f"read back with burn_in={bad[0]}")
                 findings.append(Finding("C10", f"{ext} file read back with burn_in={bad[0]}: expected {bad[1]}, observed {bad[2]}",
@@ -227,6 +257,10 @@ def run(tier, seed):
                     if rnd.random() < 0.25:
                         c[rnd.randrange(h), 0] = float("nan")
                         anynan = True
+                    elif h >= 2 and rnd.random() < 0.2:
+                        # infinite entries of both signs are not NaN: such a column stays
+                        i1, i2 = rnd.sample(range(h), 2)
+                        c[i1, 0], c[i2, 0] = float("inf"), float("-inf")
                     cols.append(c)
                 ext = rnd.choice(["h5", "npy"])
                 fn = os.path.join(tmp, f"comb{ci}_{j}.{ext}")
